@@ -117,3 +117,10 @@ claim("C19", "model_checking",
       "and `schema apply --env` with diff.skip on SQLite must never mention an excluded table or plan a skipped kind.",
       "Trusted: pattern rendering; skippable kinds = those of cmdapi.SkipChanges produced by the model.",
       "3 C19")
+claim("C15", "exploration",
+      "HCL round trip as an observation step of SchemaModel.tla, parametric in the type ids; registry-wide FormatType/ParseType fixpoint and MarshalHCL/EvalHCL round trips validated by TLC (HCLTrace.tla)",
+      "For MySQL, PostgreSQL and SQLite every registered type spec x parameter grid is formatted, parsed and re-formatted (fixpoint) and round-tripped in a one-column table; the instances are rotated into the opaque types of 400 (all, thorough) "
+      "model states, each marshalled to HCL, evaluated and diffed both ways, then re-marshalled (byte-identical); attribute showcase documents per dialect cover charset / collation / comment / auto_increment / identity / generated / on_update / "
+      "index types / prefix / desc / include / where / operator classes / nulls ordering.",
+      "Exploration level: the catalogue comes from the Go registry; the specification contributes structure and equalities.",
+      "3 C15")
